@@ -298,10 +298,79 @@ theorem prun_steps (c : PCfg) (fuel : Nat) (choices : List Nat) (s : PSys) :
     unfold prun
     split
     · exact .refl s
-    · simp only
-      split
+    · split
       · rename_i s' hs'
         exact PSteps.head _ hs' (ih _ _)
       · exact .refl s
+
+theorem penabled_step {c : PCfg} {s : PSys} {i : Nat} (h : i ∈ penabled c s) :
+    ∃ s', stageStep c s i = some s' := by
+  unfold penabled at h
+  rw [List.mem_filter] at h
+  cases hs : stageStep c s i with
+  | none => simp [hs] at h
+  | some s' => exact ⟨s', rfl⟩
+
+theorem not_penabled_none {c : PCfg} {s : PSys} {i : Nat} (h : i ∉ penabled c s) :
+    stageStep c s i = none := by
+  cases hs : stageStep c s i with
+  | none => rfl
+  | some s' =>
+    exfalso; apply h
+    unfold penabled
+    rw [List.mem_filter]
+    refine ⟨?_, by simp [hs]⟩
+    rw [List.mem_range]
+    unfold stageStep at hs
+    split at hs
+    · simp at hs
+    · rename_i st hst; exact lt_of_get hst
+
+/-- With fuel ≥ `pmeas s` the executable scheduler of the pipeline model ends with every stage ended. -/
+theorem prun_done_of_hyg {c : PCfg} (hv : c.Valid) : ∀ (fuel : Nat) (choices : List Nat) (s : PSys),
+    Hyg c s → pmeas s ≤ fuel → (prun c fuel choices s).done = true := by
+  intro fuel
+  induction fuel with
+  | zero =>
+    intro choices s hh hm
+    simp only [prun]
+    cases hd : s.done with
+    | true => rfl
+    | false =>
+      obtain ⟨k, hk⟩ := not_done_alive hd
+      obtain ⟨i, s', hs⟩ := pipeline_not_stuck hv hh hk
+      have := pmeas_step hv hs; omega
+  | succ n ih =>
+    intro choices s hh hm
+    unfold prun
+    cases he : penabled c s with
+    | nil =>
+      simp only
+      cases hd : s.done with
+      | true => rfl
+      | false =>
+        obtain ⟨k, hk⟩ := not_done_alive hd
+        obtain ⟨i, s', hs⟩ := pipeline_not_stuck hv hh hk
+        have : stageStep c s i = none := not_penabled_none (by rw [he]; simp)
+        rw [this] at hs; simp at hs
+    | cons i is =>
+      simp only
+      have hmem : pickStage choices i is ∈ penabled c s := by
+        rw [he]
+        unfold pickStage
+        cases choices with
+        | nil => simp
+        | cons k t =>
+          simp only
+          have hlt : k % (is.length + 1) < (i :: is).length := by
+            simp only [List.length_cons]; exact Nat.mod_lt _ (by omega)
+          rw [List.getD_eq_getElem?_getD, List.getElem?_eq_getElem hlt]
+          simp only [Option.getD_some]
+          exact List.getElem_mem hlt
+      obtain ⟨s', hs'⟩ := penabled_step hmem
+      rw [hs']
+      simp only
+      have := pmeas_step hv hs'
+      exact ih _ s' (hyg_step hh hs') (by omega)
 
 end YashModel.Proc
